@@ -10,7 +10,10 @@ variant of the case changes ONLY the presentation:
   seed     the same global numpy seed again                    (random starts; nvecs starts: same call again)
   scale    data * 2^{+-2}: model * 2^{+-2}, fit equal          (cp_als, hosvd, tucker_als)
   relabel  every permutation of the modes of data, guess, mode order (and rank vector / optdims)
-                                                                (cp_als, hosvd, tucker_als)
+                                                                (cp_als, hosvd, tucker_als, gcp_opt)
+  storage  the same integer-valued array in a holder with integer storage (int64 ... int8, uint8 - only dtypes that
+           hold the values exactly; dense and, where the algorithm takes it, sparse) or in a dense tensor that reached
+           its shape by growth (C-ordered buffer)              (all algorithms)
 
 and must give the same expanded model (within DESIGN 4.3), the same reported fit / objective and the same iteration
 counts.  Admissibility is decided on the reference side (numpy ALS / ST-HOSVD / HOOI below) for cp_als, hosvd and
@@ -18,6 +21,9 @@ tucker_als.  CP-APR has no closed-form reference trajectory: a dense-vs-sparse p
 stable under a 1e-12 perturbation of the start (conditioning probe on the real implementation, see `_apr_sensitive`);
 the printing and same-seed relations use identical arithmetic and are asserted unconditionally.  A pair in which both
 runs abort with the same exception (PQN-R: 'L-BFGS first iterate is bad', frequent on small inputs) is consistent.
+GCP / L-BFGS-B takes part in the relations with identical arithmetic and in the relabel / storage relations (L-BFGS-B is
+invariant under a permutation of its variables up to rounding); a GCP failure is reported only if neither of the two
+runs is decided by rounding (same 1e-12 probe).  Scaling is not a GCP relation (L-BFGS-B is not scale invariant).
 """
 
 import contextlib
@@ -38,12 +44,15 @@ ID = "C18"
 RULE = ("product explorer over pairs of runs: a case = (algorithm, member of the explicit integer data family, rank, start, "
         "maxiters, base options); inside, the base run (dense tensor, silent, original labelling, unscaled) is compared with "
         "every presentation variant of the tier (sparse holder; every printing setting; same seed again; data scaled by 4 "
-        "and 1/4; every mode permutation of data + guess + dimorder + rank vector).  One transition = one compared pair of "
+        "and 1/4; every mode permutation of data + guess + dimorder + rank vector; the same integer array in integer "
+        "storage - widest, narrowest signed, narrowest unsigned exact dtype in quick, every exact dtype of int64/int32/int16/"
+        "int8/uint8 in thorough - and in a dense tensor built by growth).  One transition = one compared pair of "
         "real runs.  A pair is admissible when the reference computation (numpy) says the result is determined by the "
         "inputs: CP-ALS reference trajectory with cond(Hadamard-Gram) <= 1e6 and no vanishing component, (ST-)HOSVD / HOOI "
         "reference with eigenvalue gap lambda_r - lambda_{r+1} >= 1e-6 lambda_1, lambda_r >= 1e-9 lambda_1 at every "
         "update and no eigenvalue tail / fit change within 1e-6 of the threshold; CP-APR dense-vs-sparse: both runs stable "
-        "under a 1e-12 perturbation of the start (conditioning probe); inadmissible pairs are run (crash "
+        "under a 1e-12 perturbation of the start (conditioning probe), the same for CP-APR and GCP storage pairs and GCP "
+        "relabel pairs; inadmissible pairs are run (crash "
         "detection) and counted, their numeric verdict is not asserted.  A pair in which both runs abort with the same "
         "exception is consistent.  Non-trivial: an admissible case with a non-zero model and a non-zero residual in "
         "which at least one pair was compared.")
@@ -62,7 +71,13 @@ ASSUMPTIONS = [
     "implementation itself: the same presentation is re-run from the start perturbed by ~1e-12 (six fixed patterns); a "
     "different outcome = decided by rounding = dense-vs-sparse relation not asserted (counted as inadmissible).  The "
     "printing and same-seed relations compare runs with identical arithmetic and are asserted unconditionally.  "
-    "GCP/L-BFGS-B takes part only in relations with identical arithmetic",
+    "GCP/L-BFGS-B takes part in relations with identical arithmetic and in the relabel / integer-storage relations (before "
+    "a failure of those is reported both runs are probed in the same way); it has no scaling relation (L-BFGS-B is not "
+    "scale invariant)",
+    "storage dtypes: every member of the data family is integer-valued; a dtype is used only if it holds every entry "
+    "exactly (mc/holders.py build(): 'dtype' / 'grown').  float32 storage is not a presentation variant (the library "
+    "computes in the storage precision, rounding 1e-7, DESIGN 4.3 tolerances do not apply); boolean storage is refused by "
+    "tenmat's explicit precondition ('must be a numeric numpy.ndarray') inside hosvd / nvecs / cp_apr and is outside the domain",
 ]
 BOUNDS = {
     "quick": "shapes (3,4),(2,3,4),(3,3,3), maxiters {1,2,3}, seeds {0,1,2}, scale {4,1/4,2^-24,2^20}, ALL N! mode permutations.  "
@@ -97,7 +112,7 @@ GAP = 1e-6            # Tucker: (lambda_r - lambda_{r+1}) / lambda_1
 RANKMIN = 1e-9        # Tucker: lambda_r / lambda_1
 TIE = 1e-6            # thresholds (eigenvalue tails / ||X||^2, fit changes)
 
-SHAPES_Q = [(3, 4), (2, 3, 4), (3, 3, 3)]
+SHAPES_Q = [(3, 4), (2, 3, 4), (3, 3, 3), (4, 2, 2, 2)]
 SHAPES_T = SHAPES_Q + [(4, 3, 2), (2, 2, 2, 3), (2, 3, 2, 2)]
 
 
@@ -226,6 +241,14 @@ def guess_apr(shape, R, g, seed):
             f[n % f.shape[0], (n + 1) % R] = 0.0
         w = np.array([2.0, 1.0, 3.0, 1.0][:R])
     return w, fs
+
+
+def gcp_guess(case):
+    """the explicit GCP start (weights, factors) of a case in the original labelling"""
+    ini = case["init"]
+    shape = tuple(case["data"]["shape"])
+    w, fs = (guess_apr if ini.get("gk") == "apr" else guess_als)(shape, int(case["rank"]), ini["g"], int(case.get("seed", 0)))
+    return np.abs(w), fs
 
 
 def guess_tucker(shape, ranks, g, seed):
@@ -416,7 +439,7 @@ def _als_bases(N, k, th):
             for od in (allm, list(range(1, N))):
                 for st in (0.0, 1e-2):
                     if not (k == 1 and st > 0):
-                        out.append((do, od, st, 0, "all"))
+                        out.append((do, od, st, 0, "all" if N <= 3 else "few"))
         return out
     orders = _perms(N) if N <= 3 else three + [[1, 0, 2, 3], [0, 2, 1, 3], [2, 0, 3, 1]]
     for do in orders:
@@ -440,7 +463,7 @@ def _tucker_bases(N, k, th):
     if not th:
         for do in [None] + three[1:]:
             for st in (0.0, 1e-2):
-                out.append((do, st, 0, "all"))
+                out.append((do, st, 0, "all" if (N <= 3 or (do is None and st == 0.0)) else "few"))
         return out
     orders = [None] + (_perms(N)[1:] if N <= 3 else three[1:] + [[1, 0, 2, 3], [2, 0, 3, 1]])
     for do in orders:
@@ -467,7 +490,7 @@ def gen_cases(tier, seed):
             for seq in (True, False):
                 orders = [None] + (three if not th else (_perms(N) if N <= 3 else three + [[1, 0, 2, 3], [2, 0, 3, 1]]))
                 for do in orders:
-                    pm = "all" if (not th or N <= 3 or do is None or do == three[0]) else "few"
+                    pm = "all" if (N <= 3 or (th and (do is None or do == three[0]))) else "few"
                     for tol in ([1e-8, 0.1, 0.3, 0.6] + ([0.05, 0.9] if th else [])):
                         yield {"check": "hosvd", "data": d, "tol": tol, "ranks": None, "seq": seq, "dimorder": do,
                                "tier": tier, "perms": pm}
@@ -534,7 +557,7 @@ def gen_cases(tier, seed):
                 if alg in ("pdnr", "pqnr") and th:
                     optsets.append({"stoptol": 1e-2})
                 for R in ((1, 2, 3) if th else (1, 2)):
-                    for k in ks:
+                    for k in (ks if (th or len(shape) <= 3) else ks[:2]):      # quick, order 4: maxiters {1,2}
                         for g in ((0, 1, 2, 3, 4, 5) if th else (0, 1, 2, 3, 4)):
                             if R == 3 and g not in (0, 3, 4):
                                 continue
@@ -558,6 +581,17 @@ def variants(case):
     kind = case.get("init", {}).get("kind", "given")
     perms = _perms(N)[1:] if case.get("perms", "all") == "all" else _few_perms(N)
     out = []
+    # storage of the same integer array: integer dtypes of the dense / sparse holder, dense tensor that reached its shape
+    # by growth (the library then holds a C-ordered buffer)
+    dts = storage_dtypes(data_array(case["data"]), th)
+    narrow = [d for d in dts if not d.startswith("u")][-1:]
+    if kind == "given":
+        out += [{"rel": "storage", "holder": "tensor", "dtype": d} for d in dts]
+        out += [{"rel": "storage", "holder": "tensor", "layout": "grown"}]
+        if alg in ("cp_als", "cp_apr"):
+            out += [{"rel": "storage", "holder": "sptensor", "dtype": d} for d in (dts if th else narrow)]
+    else:
+        out += [{"rel": "storage", "holder": "tensor", "dtype": d} for d in narrow]
     if alg == "cp_als":
         if kind == "given":
             out += [{"rel": "sparse", "printitn": 0}, {"rel": "sparse", "printitn": 1}]
@@ -604,6 +638,7 @@ def variants(case):
         if kind == "given":
             out += [{"rel": "print", "printitn": p} for p in (1, 2, 3)]
             out += [{"rel": "print", "printitn": 0, "iprint": i} for i in (0, 1)]
+            out += [{"rel": "relabel", "perm": p} for p in perms]
             if th:
                 out += [{"rel": "print", "printitn": 1, "iprint": 99}]
         else:
@@ -653,11 +688,53 @@ def _in_silenced_child(fn):
     return payload[1]
 
 
-def _holder(A, kind):
+# storage dtypes of the holder (widest first).  Only integer storage: every member of the data family is integer-valued, and
+# a dtype is used only where it holds the (scaled) values exactly.  float32 is NOT a presentation variant: the library
+# computes in the storage precision, so rounding is 1e-7 there and the tolerances of DESIGN 4.3 do not apply; boolean
+# storage is refused by tenmat ('must be a numeric numpy.ndarray'), i.e. outside the library's stated domain.
+INT_DTYPES = ["int64", "int32", "int16", "int8", "uint8"]
+
+
+def exact_dtypes(A):
+    """the integer storage dtypes that hold every entry of A exactly (widest first)"""
+    A = np.asarray(A, dtype=float)
+    out = []
+    if not np.all(np.isfinite(A)) or np.any(A != np.round(A)):
+        return out
+    for dt in INT_DTYPES:
+        info = np.iinfo(np.dtype(dt))
+        if float(np.min(A, initial=0.0)) >= info.min and float(np.max(A, initial=0.0)) <= info.max:
+            out.append(dt)
+    return out
+
+
+def storage_dtypes(A, th):
+    """the storage alphabet of one data array: thorough = every exact integer dtype; quick = the widest one, the narrowest
+    signed one and the narrowest unsigned one (intermediate products are most likely to leave the narrowest types)"""
+    ex = exact_dtypes(A)
+    if th:
+        return ex
+    signed = [d for d in ex if not d.startswith("u")]
+    unsigned = [d for d in ex if d.startswith("u")]
+    out = []
+    for d in signed[:1] + signed[-1:] + unsigned[-1:]:
+        if d not in out:
+            out.append(d)
+    return out
+
+
+def _holder(A, kind, dtype=None, layout=None):
     shape = list(A.shape)
     vals = [float(v) for v in rm.vals_f(A)]
-    return H.build({"kind": kind, "shape": shape, "vals": vals, "order": None} if kind == "sptensor"
-                   else {"kind": "tensor", "shape": shape, "vals": vals})
+    d = ({"kind": kind, "shape": shape, "vals": vals, "order": None} if kind == "sptensor"
+         else {"kind": "tensor", "shape": shape, "vals": vals})
+    if dtype:
+        if dtype not in exact_dtypes(A):
+            raise ValueError(f"harness: storage dtype {dtype} does not hold the data exactly")
+        d["dtype"] = dtype
+    if layout == "grown" and kind == "tensor":
+        d["grown"] = True
+    return H.build(d)
 
 
 def _unperm(M, perm):
@@ -713,7 +790,8 @@ def run(case, v, start=None):
     Ap = A * c
     if perm is not None:
         Ap = np.transpose(Ap, perm)
-    X = _holder(np.ascontiguousarray(Ap), "sptensor" if (v.get("rel") == "sparse" or v.get("holder") == "sptensor") else "tensor")
+    X = _holder(np.ascontiguousarray(Ap), "sptensor" if (v.get("rel") == "sparse" or v.get("holder") == "sptensor") else "tensor",
+                v.get("dtype"), v.get("layout"))
     ini = case.get("init", {"kind": "given", "g": 0})
     seed = int(case.get("seed", 0))
     buf = io.StringIO()
@@ -809,9 +887,12 @@ def run(case, v, start=None):
                 okw = {"maxiter": int(case["k"])}
                 if "iprint" in v:
                     okw["iprint"] = int(v["iprint"])
-                if ini["kind"] == "given":
-                    w, fs = (guess_apr if ini.get("gk") == "apr" else guess_als)(shape, R, ini["g"], seed)
-                    init = ttb.ktensor([f.copy(order="F") for f in fs], np.abs(w))
+                if start is not None:
+                    init = ttb.ktensor([np.array(f, order="F", copy=True) for f in _by_perm(start[1], perm)],
+                                       np.array(start[0], copy=True))
+                elif ini["kind"] == "given":
+                    w, fs = gcp_guess(case)
+                    init = ttb.ktensor([f.copy(order="F") for f in _by_perm(fs, perm)], w.copy())
                 else:
                     init = "random"
                 seeded()
@@ -820,7 +901,7 @@ def run(case, v, start=None):
                     M, M0, info = ttb.gcp_opt(X, R, getattr(Objectives, case["objective"]), LBFGSB(**okw), init=init,
                                               printitn=int(v.get("printitn", 0)))
                     return {"U0": [np.array(f, dtype=float, copy=True) for f in M0.factor_matrices],
-                            "M": rm.kruskal(np.asarray(M.weights), [np.asarray(f) for f in M.factor_matrices]),
+                            "M": _unperm(rm.kruskal(np.asarray(M.weights), [np.asarray(f) for f in M.factor_matrices]), perm),
                             "obj": float(info["final_f"]), "iters": int(info["nit"]),
                             "inner": [float(info["funcalls"]), float(info["warnflag"])]}
 
@@ -864,6 +945,23 @@ def _apr_sensitive(case, v, res, start, amax):
         elif float(np.max(np.abs(pr["M"] - res["M"]))) > 0.01 * TOL_M * amax:
             return True
         elif pr["iters"] != res["iters"] or pr["inner"] != res["inner"]:
+            return True
+    return False
+
+
+def _gcp_sensitive(case, v, res, start, amax):
+    """Is the gcp_opt result `res` of presentation `v` decided by rounding?  Same probe as `_apr_sensitive`: the run is
+    repeated from the explicit start perturbed by ~1e-12 (relative, four fixed patterns)."""
+    w0, U0 = start
+    for t in range(4):
+        pr = run_safe(case, v, start=(w0, _perturbed(U0, t)))
+        if not pr["ok"]:
+            return True
+        if pr["M"].shape != res["M"].shape or not np.all(np.isfinite(pr["M"])) or not np.all(np.isfinite(res["M"])):
+            return True
+        if float(np.max(np.abs(pr["M"] - res["M"]))) > 0.01 * TOL_M * amax:
+            return True
+        if pr["iters"] != res["iters"] or pr["inner"] != res["inner"]:
             return True
     return False
 
@@ -1030,11 +1128,20 @@ def _compare(ctx, case, v, base, other, adm, why, alg, sub_alg, kind, amax, nx2,
     def fail(vv, symptom, detail):
         # a pair of DIFFERENT arithmetic (dense / sparse) is asserted only where both runs are determined by their
         # inputs: before a cp_apr dense-vs-sparse failure is reported, the variant's own conditioning is probed too
-        if alg == "cp_apr" and rel == "sparse" and start is not None:
+        if alg == "cp_apr" and rel in ("sparse", "storage") and start is not None:
             if "s" not in memo:
                 memo["s"] = _apr_sensitive(case, v, other, start, amax)
             if memo["s"]:
                 ctx.count("cp_apr:inadmissible:rounding_sensitive_variant")
+                return
+        # GCP / L-BFGS-B (line searches, no closed-form reference trajectory): a pair of different arithmetic (relabelled
+        # modes, integer storage) is asserted unless one of the two runs is decided by rounding (same probe as CP-APR)
+        if alg == "gcp_opt" and rel in ("relabel", "storage") and kind == "given" and base.get("ok") and other.get("ok"):
+            if "s" not in memo:
+                st = gcp_guess(case)
+                memo["s"] = _gcp_sensitive(case, {}, base, st, amax) or _gcp_sensitive(case, v, other, st, amax)
+            if memo["s"]:
+                ctx.count("gcp_opt:inadmissible:rounding_sensitive")
                 return
         fail0(vv, symptom, detail)
 
@@ -1066,7 +1173,7 @@ def _compare(ctx, case, v, base, other, adm, why, alg, sub_alg, kind, amax, nx2,
         ctx.outcome([alg, rel, "inadm"])
         return
     # ---- the start actually used is the same (seeded / generated starts)
-    if rel in ("seed", "print", "sparse") and kind != "given" and alg != "hosvd":
+    if rel in ("seed", "print", "sparse", "storage") and kind != "given" and alg != "hosvd":
         same = len(base["U0"]) == len(other["U0"]) and all(
             (a is None and b is None) or (a is not None and b is not None and a.shape == b.shape
                                           and (np.array_equal(a, b) if kind == "random" else
@@ -1123,6 +1230,10 @@ def _compare(ctx, case, v, base, other, adm, why, alg, sub_alg, kind, amax, nx2,
         if dk > 1e-7 * max(1.0, max(abs(a) for a in base["kkt"])):
             fail(v, "wrong_value:kkt", f"reported KKT violations {base['kkt']} vs {other['kkt']}")
     ctx.flag(f"{alg}:{rel}:compared")
+    if rel == "storage":
+        ctx.flag("storage:" + str(v.get("dtype") or v.get("layout")) + (":sparse" if v.get("holder") == "sptensor" else ""))
+    if Mb.ndim >= 4:
+        ctx.flag(f"{alg}:{rel}:order4")
     ctx.outcome([alg, sub_alg, rel, {key: val for key, val in v.items() if key != "rel"}, "ok" if not bad else "bad"])
 
 
@@ -1153,7 +1264,11 @@ NEED = ["cp_als:ran", "cp_apr:ran:mu", "cp_apr:ran:pdnr", "cp_apr:ran:pqnr", "ho
         "hosvd:print:compared", "hosvd:scale:compared", "hosvd:relabel:compared", "tucker_als:print:compared",
         "tucker_als:seed:compared", "tucker_als:scale:compared", "tucker_als:relabel:compared", "gcp_opt:print:compared",
         "gcp_opt:seed:compared", "cp_als:printed", "cp_apr:printed", "hosvd:printed", "tucker_als:printed",
-        "cp_als:stop_early", "tucker_als:stop_early", "hosvd:truncating", "cp_apr:empty_slice:pdnr", "cp_apr:empty_slice:mu"]
+        "cp_als:stop_early", "tucker_als:stop_early", "hosvd:truncating", "cp_apr:empty_slice:pdnr", "cp_apr:empty_slice:mu",
+        "cp_als:storage:compared", "cp_apr:storage:compared", "hosvd:storage:compared", "tucker_als:storage:compared",
+        "gcp_opt:storage:compared", "gcp_opt:relabel:compared", "storage:int64", "storage:int8", "storage:uint8",
+        "storage:int16", "storage:grown", "storage:int8:sparse", "gcp_opt:relabel:order4", "cp_als:relabel:order4",
+        "hosvd:relabel:order4", "tucker_als:relabel:order4", "cp_apr:sparse:order4", "cp_als:storage:order4"]
 
 
 def finalize(tier, seed, totals):
